@@ -40,6 +40,7 @@ type Op struct {
 	X     uint64      `json:"x,omitempty"`
 	Y     uint64      `json:"y,omitempty"`
 	Seed  uint64      `json:"seed,omitempty"`
+	N     uint64      `json:"n,omitempty"`  // bulk: number of elements
 	Rl    bool        `json:"rl,omitempty"` // the key is relative to the current length (resolved when the op runs)
 }
 
@@ -49,6 +50,7 @@ type Case struct {
 	Ops    []Op      `json:"ops"`
 	Twin   []int     `json:"twin,omitempty"`   // before these op positions the twin's storage is toggled
 	Strict bool      `json:"strict,omitempty"` // corpus cases of recorded findings: compared with S only
+	GoCut  int       `json:"gocut,omitempty"`  // kind 2: the wrapper is handed backing[:gocut] (0 = everything)
 }
 
 const prelude = `"use strict";
@@ -57,7 +59,7 @@ for (let i = 0; i < 4; i++) { G.push(function () { return 1000 + i; }); S.push(f
 var hop = Object.prototype.hasOwnProperty;
 function mkdesc(d) {
   var r = {};
-  if ('v' in d) r.value = d.v === 0 ? undefined : d.v;
+  if ('v' in d) r.value = dv(d.v);
   if ('w' in d) r.writable = d.w;
   if ('g' in d) r.get = d.g < 0 ? undefined : G[d.g];
   if ('s' in d) r.set = d.s < 0 ? undefined : S[d.s];
@@ -65,7 +67,14 @@ function mkdesc(d) {
   if ('c' in d) r.configurable = d.c;
   return r;
 }
-function venc(v) { return v === undefined ? 0 : (typeof v === 'number' && v >= 1 && v < 9e15 && Math.floor(v) === v) ? v : 999999; }
+// element codes: 0 = undefined, n = the number n, 5000+n = the string String(n), 998 = null
+function dv(c) { return c === 0 ? undefined : c === 998 ? null : (c >= 5000 && c < 9000) ? String(c - 5000) : c; }
+function venc(v) {
+  if (v === undefined) return 0;
+  if (v === null) return 998;
+  if (typeof v === 'string' && /^[0-9]{1,4}$/.test(v) && String(Number(v)) === v) return 5000 + Number(v);
+  return (typeof v === 'number' && v >= 1 && v < 9e15 && Math.floor(v) === v) ? v : 999999;
+}
 function fenc(f, tab) { if (f === undefined) return 0; var i = tab.indexOf(f); return i < 0 ? 77 : i + 1; }
 // NOTE: Array.prototype gets indexed properties during a case, so helper code must never use [[Set]] on its own
 // arrays (push, a[i]=v): buffers are Float64Arrays, results are built with Array.from / literals (CreateDataProperty).
@@ -124,7 +133,7 @@ function randcmp(seed) {
   };
 }
 var H = {
-  set: function (a, op) { if (op.r) return Reflect.set(a, op.k, op.v === 0 ? undefined : op.v); a[op.k] = op.v === 0 ? undefined : op.v; },
+  set: function (a, op) { if (op.r) return Reflect.set(a, op.k, dv(op.v)); a[op.k] = dv(op.v); },
   setlen: function (a, op) { var n = op.inv ? -1 : op.k; if (op.r) return Reflect.set(a, 'length', n); a.length = n; },
   def: function (a, op) { if (op.r) return Reflect.defineProperty(a, op.k, mkdesc(op.d)); Object.defineProperty(a, op.k, mkdesc(op.d)); },
   deflen: function (a, op) {
@@ -133,46 +142,63 @@ var H = {
   },
   del: function (a, op) { if (op.r) return Reflect.deleteProperty(a, op.k); delete a[op.k]; },
   noop: function (a) {},
-  get: function (a, op) { return a[op.k]; },
+  bulk: function (a, op) { for (var i = 0; i < op.n; i++) a[op.k + i] = (op.k + i) % 40 + 1; },
+  setlenre: function (a, op) {
+    var o = { valueOf: function () {
+      if (op.f === 1) Object.freeze(a); else if (op.f === 2) Object.defineProperty(a, 'length', { writable: false }); else { try { a[op.x] = 7; } catch (e) {} }
+      return op.k; } };
+    if (op.r) return Reflect.set(a, 'length', o); a.length = o;
+  },
+  get: function (a, op) { return venc(a[op.k]); },
   has: function (a, op) { return op.k in a; },
   freeze: function (a) { Object.freeze(a); }, seal: function (a) { Object.seal(a); }, prevent: function (a) { Object.preventExtensions(a); },
   proto: function (a, op, P) {
     if (op.f === 99) { delete P[op.k]; return; }
     var d = { enumerable: !!(op.f & 2), configurable: true };
-    if (op.f < 8) { d.value = op.x === 0 ? undefined : op.x; d.writable = !!(op.f & 4); }
+    if (op.f < 8) { d.value = dv(op.x); d.writable = !!(op.f & 4); }
     else { d.get = op.x === 0 ? undefined : G[op.x - 1]; d.set = op.y === 0 ? undefined : S[op.y - 1]; }
     Object.defineProperty(P, op.k, d);
   },
-  push: function (a, op) { return AP.push.apply(a, Array.from(op.vs, function (v) { return v === 0 ? undefined : v; })); },
-  pop: function (a) { return AP.pop.call(a); },
-  shift: function (a) { return AP.shift.call(a); },
-  unshift: function (a, op) { return AP.unshift.apply(a, Array.from(op.vs || [], function (v) { return v === 0 ? undefined : v; })); },
+  push: function (a, op) { return AP.push.apply(a, Array.from(op.vs, function (v) { return dv(v); })); },
+  pop: function (a) { return venc(AP.pop.call(a)); },
+  shift: function (a) { return venc(AP.shift.call(a)); },
+  unshift: function (a, op) { return AP.unshift.apply(a, Array.from(op.vs || [], function (v) { return dv(v); })); },
   splice: function (a, op) {
-    var args = [op.st || 0]; if ('dc' in op) args = [op.st || 0, op.dc].concat(Array.from(op.vs || [], function (v) { return v === 0 ? undefined : v; }));
+    var args = [op.st || 0]; if ('dc' in op) args = [op.st || 0, op.dc].concat(Array.from(op.vs || [], function (v) { return dv(v); }));
     return view(AP.splice.apply(a, args));
   },
   reverse: function (a) { return AP.reverse.call(a) === a; },
-  fill: function (a, op) { return ('en' in op ? AP.fill.call(a, op.v === 0 ? undefined : op.v, op.st || 0, op.en) : AP.fill.call(a, op.v === 0 ? undefined : op.v, op.st || 0)) === a; },
+  fill: function (a, op) { return ('en' in op ? AP.fill.call(a, dv(op.v), op.st || 0, op.en) : AP.fill.call(a, dv(op.v), op.st || 0)) === a; },
   copyWithin: function (a, op) { return ('en' in op ? AP.copyWithin.call(a, op.t || 0, op.st || 0, op.en) : AP.copyWithin.call(a, op.t || 0, op.st || 0)) === a; },
   slice: function (a, op) { return view('en' in op ? AP.slice.call(a, op.st || 0, op.en) : AP.slice.call(a, op.st || 0)); },
   concat: function (a, op) {
-    var args = Array.from(op.items || [], function (it) { it = it || []; var r = []; r.length = it.length; for (var i = 0; i < it.length; i++) { var v = it[i]; if (v !== null && v !== undefined) cdp(r, i, v === 0 ? undefined : v); } return r; });
+    var args = Array.from(op.items || [], function (it) { it = it || []; var r = []; r.length = it.length; for (var i = 0; i < it.length; i++) { var v = it[i]; if (v !== null && v !== undefined) cdp(r, i, dv(v)); } return r; });
     return view(AP.concat.apply(a, args));
   },
-  concatv: function (a, op) { return view(AP.concat.call(a, op.v === 0 ? undefined : op.v)); },
-  indexOf: function (a, op) { return AP.indexOf.call(a, op.v === 0 ? undefined : op.v, op.st || 0); },
-  includes: function (a, op) { return AP.includes.call(a, op.v === 0 ? undefined : op.v, op.st || 0); },
+  concatv: function (a, op) { return view(AP.concat.call(a, dv(op.v))); },
+  indexOf: function (a, op) { return AP.indexOf.call(a, dv(op.v), op.st || 0); },
+  includes: function (a, op) { return AP.includes.call(a, dv(op.v), op.st || 0); },
   sort: function (a, op) { return AP.sort.call(a, cmpfn(op.ck || 0)) === a; },
   sortrand: function (a, op) { var ok = AP.sort.call(a, randcmp(op.seed || 0)) === a; return [ok ? 1 : 0, Array.from(LOGB.subarray(0, LN)), viewAL(a)]; },
 };
+function dumpG(a) {
+  var n = a.length; BN = 4;
+  for (var i = 0; i < n && i < 4000; i++) put4(i, 7, venc(a[i]), 0);
+  BUF[0] = n; BUF[1] = 1; BUF[2] = 1; BUF[3] = Math.min(n, 4000);
+  return Array.from(BUF.subarray(0, BN));
+}
+var KIND = 0;
 function run(name, a, op, P) {
+  if (name === 'gotrunc') name = 'noop';
+  if (KIND === 2) { try { return [0, H[name](a, op, P), dumpG(a)]; } catch (e) { return [e instanceof TypeError ? 1 : e instanceof RangeError ? 2 : 3, undefined, dumpG(a)]; } }
   try { return [0, H[name](a, op, P), dump(a)]; }
   catch (e) { return [e instanceof TypeError ? 1 : e instanceof RangeError ? 2 : 3, undefined, dump(a)]; }
 }
 function mk(kind, init) {
-  var a, P;
+  var a, P; KIND = kind;
+  if (kind === 2) return [GOBUF, Array.prototype];
   if (kind === 0) { a = []; P = Array.prototype; } else { P = {}; a = Object.create(P); }
-  for (var i = 0; i < init.length; i++) if (init[i] !== null) a[i] = init[i] === 0 ? undefined : init[i];
+  for (var i = 0; i < init.length; i++) if (init[i] !== null) a[i] = dv(init[i]);
   a.length = init.length;
   return [a, P];
 }
@@ -228,17 +254,29 @@ const maxLoopLen = 200
 var prg = goja.MustCompile("prelude.js", prelude, false)
 
 type variant struct {
-	rt   *goja.Runtime
-	a    *goja.Object
-	P    goja.Value
-	run  goja.Callable
-	prev string
+	buf    *[]interface{} // kind 2: the Go slice behind the wrapper
+	isNull bool           // get/pop results: Go nil stands for null (kind 2) or undefined
+	rt     *goja.Runtime
+	a      *goja.Object
+	P      goja.Value
+	run    goja.Callable
+	prev   string
 }
 
-func newVariant(kind int, init []*uint64) *variant {
+func newVariant(kind int, init []*uint64, gocut ...int) *variant {
 	rt := goja.New()
 	if _, err := rt.RunProgram(prg); err != nil {
 		panic(err)
+	}
+	var buf *[]interface{}
+	if kind == 2 {
+		backing := initJS(init)
+		b := backing
+		if len(gocut) > 0 && gocut[0] > 0 && gocut[0] < len(backing) {
+			b = backing[:gocut[0]] // the rest of the backing array stays dirty behind the wrapper
+		}
+		buf = &b
+		rt.Set("GOBUF", buf)
 	}
 	mk, _ := goja.AssertFunction(rt.Get("mk"))
 	res, err := mk(goja.Undefined(), rt.ToValue(kind), rt.ToValue(initJS(init)))
@@ -247,7 +285,7 @@ func newVariant(kind int, init []*uint64) *variant {
 	}
 	ro := res.ToObject(rt)
 	run, _ := goja.AssertFunction(rt.Get("run"))
-	return &variant{rt: rt, a: ro.Get("0").ToObject(rt), P: ro.Get("1"), run: run}
+	return &variant{rt: rt, a: ro.Get("0").ToObject(rt), P: ro.Get("1"), run: run, buf: buf}
 }
 
 func initJS(init []*uint64) []interface{} {
@@ -264,12 +302,38 @@ func opJS(op Op) map[string]interface{} {
 	b, _ := json.Marshal(op)
 	var m map[string]interface{}
 	json.Unmarshal(b, &m)
-	for _, k := range []string{"k", "v", "x", "y", "f", "st", "t", "ck", "seed"} {
+	for _, k := range []string{"k", "v", "x", "y", "f", "st", "t", "ck", "seed", "n"} {
 		if _, ok := m[k]; !ok {
 			m[k] = 0
 		}
 	}
 	return m
+}
+
+// vcode maps an exported JS value to its element code (see dv/venc in the prelude)
+func vcode(v interface{}, _ bool) int64 {
+	switch x := v.(type) {
+	case nil:
+		return 0
+	case string:
+		if len(x) >= 1 && len(x) <= 4 {
+			n := int64(0)
+			for _, ch := range x {
+				if ch < '0' || ch > '9' {
+					return 999999
+				}
+				n = n*10 + int64(ch-'0')
+			}
+			if fmt.Sprint(n) == x {
+				return 5000 + n
+			}
+		}
+		return 999999
+	}
+	if n := num(v); n >= 1 {
+		return n
+	}
+	return 999999
 }
 
 func num(v interface{}) int64 {
@@ -448,6 +512,12 @@ func opTerm(op Op, extra string) string {
 		return "OSortObs " + extra
 	case "export":
 		return "OExport"
+	case "bulk":
+		return fmt.Sprintf("OBulk %d %d", op.K, op.N)
+	case "setlenre":
+		return fmt.Sprintf("OSetLenRe %s %d %d %d", b(op.R), op.K, op.F, op.X)
+	case "gotrunc":
+		return fmt.Sprintf("OGoTrunc %d", op.K)
 	case "noop":
 		return "OToggle"
 	}
@@ -494,6 +564,8 @@ func (vr *variant) exec(op Op, kind int) (resT, opT, dumpT string) {
 					xs[i] = fmt.Sprintf("Some %d", t)
 				case float64:
 					xs[i] = fmt.Sprintf("Some %d", int64(t))
+				case string:
+					xs[i] = fmt.Sprintf("Some %d", vcode(t, false))
 				default:
 					xs[i] = "Some 999999"
 				}
@@ -523,34 +595,22 @@ func (vr *variant) exec(op Op, kind int) (resT, opT, dumpT string) {
 			}
 		} else {
 			switch op.O {
-			case "set", "setlen", "def", "deflen", "del":
+			case "set", "setlen", "def", "deflen", "del", "setlenre":
 				if op.R {
 					resT = fmt.Sprintf("RB %s", vh.CoqBool(val == true))
 				} else {
 					resT = "RU"
 				}
 			case "get":
-				if val == nil {
-					resT = "RV 0"
-				} else if n := num(val); n >= 1 {
-					resT = fmt.Sprintf("RV %d", n)
-				} else {
-					resT = "RV 999999"
-				}
+				resT = fmt.Sprintf("RV %d", num(val)) // encoded by venc in the prelude
 			case "has", "includes":
 				resT = fmt.Sprintf("RB %s", vh.CoqBool(val == true))
-			case "freeze", "seal", "prevent", "proto", "noop":
+			case "freeze", "seal", "prevent", "proto", "noop", "bulk", "gotrunc":
 				resT = "RU"
 			case "push", "unshift":
 				resT = fmt.Sprintf("RV %d", num(val))
 			case "pop", "shift":
-				if val == nil {
-					resT = "RV 0"
-				} else if n := num(val); n >= 1 {
-					resT = fmt.Sprintf("RV %d", n)
-				} else {
-					resT = "RV 999999"
-				}
+				resT = fmt.Sprintf("RV %d", num(val))
 			case "reverse", "fill", "copyWithin", "sort":
 				if val == true {
 					resT = "RU"
@@ -624,7 +684,7 @@ func coqInit(init []*uint64) string {
 
 func runCase(c Case) vh.Record {
 	tags := map[string]bool{fmt.Sprintf("kind:%d", c.Kind): true}
-	normal := newVariant(c.Kind, c.Init)
+	normal := newVariant(c.Kind, c.Init, c.GoCut)
 	var twin *variant
 	if c.Kind == 0 && len(c.Twin) > 0 {
 		twin = newVariant(0, c.Init)
@@ -638,6 +698,7 @@ func runCase(c Case) vh.Record {
 	sawSortRand := false
 	for i, op := range c.Ops {
 		if op.Rl {
+			// relative keys / lengths are resolved against the current length when the op runs
 			op.K += uint64(normal.length())
 			op.Rl = false
 			tags["relative-key"] = true
@@ -649,6 +710,36 @@ func runCase(c Case) vh.Record {
 		}
 		if c.Kind == 1 && (op.O == "deflen" || op.O == "export" || op.O == "concat" || op.O == "concatv" || (op.O == "setlen" && op.Inv)) {
 			continue
+		}
+		if c.Kind != 0 && (op.O == "bulk" || op.O == "setlenre") {
+			continue
+		}
+		if c.Kind != 2 && op.O == "gotrunc" {
+			continue
+		}
+		if c.Kind == 2 {
+			// the Go slice wrapper: only the operations whose behaviour is array-like by documentation; indices and
+			// lengths stay small (the wrapper allocates up to the index)
+			l := uint64(normal.length())
+			switch op.O {
+			case "set", "get", "has", "del":
+				if op.K > l+6 {
+					continue
+				}
+			case "setlen":
+				if op.Inv || op.K > l+6 {
+					continue
+				}
+			case "gotrunc":
+				if op.K > l {
+					op.K = l
+				}
+				b := (*normal.buf)[:op.K]
+				*normal.buf = b
+			case "push", "pop", "shift", "unshift", "splice", "reverse", "fill", "copyWithin", "slice", "indexOf", "includes":
+			default:
+				continue
+			}
 		}
 		if loopingOps[op.O] && normal.length() > maxLoopLen {
 			tags["skipped-looping-op-on-long-array"] = true
@@ -719,7 +810,11 @@ func runCase(c Case) vh.Record {
 		tags["twin-own-sort-log"] = true
 	}
 	_ = sawSortRand
-	term := fmt.Sprintf("(mkCase %s %d %s %s %s %s %s)%%N", vh.CoqBool(c.Strict), c.Kind, coqInit(c.Init), vh.CoqList(opsN), vh.CoqList(obsN), vh.CoqList(opsT), vh.CoqList(obsT))
+	initT := c.Init
+	if c.Kind == 2 && c.GoCut > 0 && c.GoCut < len(c.Init) {
+		initT = c.Init[:c.GoCut]
+	}
+	term := fmt.Sprintf("(mkCase %s %d %s %s %s %s %s)%%N", vh.CoqBool(c.Strict), c.Kind, coqInit(initT), vh.CoqList(opsN), vh.CoqList(obsN), vh.CoqList(opsT), vh.CoqList(obsT))
 	var tl []string
 	for t := range tags {
 		tl = append(tl, t)
@@ -963,15 +1058,214 @@ func genOp(r *vh.Rng, curLen int, allowSortRand bool) Op {
 }
 
 func genCase(r *vh.Rng) Case {
-	switch r.Pick(64, 12, 10, 14) {
+	switch r.Pick(40, 10, 8, 12, 8, 8, 6, 8) {
 	case 1:
 		return genSortCase(r)
 	case 2:
 		return genSwitchCase(r)
 	case 3:
 		return genGapCase(r)
+	case 4:
+		return genSwitchDefineCase(r)
+	case 5:
+		return genSortDefaultCase(r)
+	case 6:
+		return genReentrantCase(r)
+	case 7:
+		return genGoSliceCase(r)
 	}
 	return genPlainCase(r, nil)
+}
+
+// a descriptor that makes the element a valueProperty (non-configurable / accessor / non-writable / non-enumerable)
+func genSpecialDesc(r *vh.Rng) *Desc {
+	d := &Desc{}
+	switch r.Pick(45, 25, 15, 15) {
+	case 0:
+		d.V, d.C = u(genVal(r)), bp(false)
+		if r.Chance(50) {
+			d.W = bp(r.Chance(50))
+		}
+		if r.Chance(50) {
+			d.E = bp(r.Chance(50))
+		}
+	case 1:
+		d.G = ip(r.Intn(3))
+		d.C = bp(r.Chance(40))
+	case 2:
+		d.V, d.W, d.C = u(genVal(r)), bp(false), bp(true)
+	case 3:
+		d.V, d.E, d.C = u(genVal(r)), bp(false), bp(r.Chance(50))
+	}
+	return d
+}
+
+func genShrinks(r *vh.Rng, ops []Op, key uint64) []Op {
+	for i, n := 0, 1+r.Intn(3); i < n; i++ {
+		if r.Chance(70) {
+			ops = append(ops, Op{O: "setlen", R: r.Chance(40), K: uint64(r.Intn(12))})
+		} else {
+			op := Op{O: "deflen", R: r.Chance(40), D: &Desc{}, L: i64(int64(r.Intn(12)))}
+			if r.Chance(30) {
+				op.D.W = bp(r.Chance(50))
+			}
+			ops = append(ops, op)
+		}
+		switch r.Pick(40, 30, 30) {
+		case 0:
+			ops = append(ops, Op{O: "get", K: key})
+		case 1:
+			ops = append(ops, Op{O: "has", K: key})
+		case 2:
+			ops = append(ops, Op{O: "del", R: r.Chance(50), K: key})
+		}
+	}
+	return ops
+}
+
+// genSwitchDefineCase: the defineProperty call ITSELF performs the storage switch, in either direction, with a
+// descriptor that makes the new element a valueProperty; afterwards the length shrinks below the element
+func genSwitchDefineCase(r *vh.Rng) Case {
+	c := Case{Init: []*uint64{}}
+	if r.Chance(55) {
+		// flat -> sparse: a far index on a small plain array
+		for i, n := 0, r.Intn(8); i < n; i++ {
+			c.Init = append(c.Init, u(genVal(r)))
+		}
+		if r.Chance(30) {
+			c.Ops = append(c.Ops, Op{O: "push", Vs: []uint64{genVal(r)}})
+		}
+		key := []uint64{4097, 5000, 65535, 100000, 4294967294}[r.Intn(5)]
+		c.Ops = append(c.Ops, Op{O: "def", R: r.Chance(40), K: key, D: genSpecialDesc(r)})
+		c.Ops = genShrinks(r, c.Ops, key)
+		tail := genPlainCase(r, nil)
+		if len(tail.Ops) > 6 {
+			tail.Ops = tail.Ops[:6]
+		}
+		c.Ops = append(c.Ops, tail.Ops...)
+		c.Twin = []int{r.Intn(len(c.Ops))}
+		return c
+	}
+	// sparse -> flat: 1024 items, then the define of a NEW index converts
+	c.Ops = append(c.Ops, Op{O: "set", K: 5000, V: genVal(r)})
+	c.Ops = append(c.Ops, Op{O: "bulk", K: 0, N: 1023})
+	key := []uint64{1023, 1024, 1500, 2000, 4999}[r.Intn(5)]
+	c.Ops = append(c.Ops, Op{O: "def", R: r.Chance(40), K: key, D: genSpecialDesc(r)})
+	c.Ops = genShrinks(r, c.Ops, key)
+	if len(c.Ops) > 8 {
+		c.Ops = c.Ops[:8]
+	}
+	return c
+}
+
+// genSortDefaultCase: 13..40 distinguishable elements with EQUAL string forms (the number k and the string "k"),
+// sorted with the default comparator on every receiver kind; stability is visible in the order of k / "k"
+func genSortDefaultCase(r *vh.Rng) Case {
+	c := Case{}
+	n0 := 13 + r.Intn(28)
+	keys := 2 + r.Intn(5)
+	for i := 0; i < n0; i++ {
+		k := uint64(1 + r.Intn(keys))
+		switch {
+		case r.Chance(3):
+			c.Init = append(c.Init, u(0))
+		case r.Chance(50):
+			c.Init = append(c.Init, u(5000+k))
+		default:
+			c.Init = append(c.Init, u(k))
+		}
+	}
+	if r.Chance(25) {
+		c.Init[r.Intn(n0)] = nil // a hole: generic path
+	}
+	for i, n := 0, 1+r.Intn(4); i < n; i++ {
+		switch r.Pick(60, 15, 15, 10) {
+		case 0:
+			c.Ops = append(c.Ops, Op{O: "sort", Ck: 0})
+		case 1:
+			c.Ops = append(c.Ops, Op{O: "reverse"})
+		case 2:
+			c.Ops = append(c.Ops, Op{O: "push", Vs: []uint64{uint64(1 + r.Intn(keys)), 5000 + uint64(1+r.Intn(keys))}})
+		case 3:
+			c.Ops = append(c.Ops, Op{O: "copyWithin", T: int64(r.Intn(n0)), St: int64(r.Intn(n0))})
+		}
+	}
+	c.Ops = append(c.Ops, Op{O: "sort", Ck: 0})
+	c.Twin = []int{r.Intn(len(c.Ops))}
+	return c
+}
+
+// genReentrantCase: a.length = {valueOf(){ freeze(a) | make length read-only | a[far] = 7; return n }}
+func genReentrantCase(r *vh.Rng) Case {
+	var pre []Op
+	if r.Chance(40) {
+		pre = append(pre, Op{O: "def", K: uint64(r.Intn(6)), D: genSpecialDesc(r)})
+	}
+	for i, n := 0, 1+r.Intn(2); i < n; i++ {
+		op := Op{O: "setlenre", R: r.Chance(50), K: uint64(r.Intn(12)), F: 1 + r.Intn(3)}
+		op.X = []uint64{2, 9, 4097, 100000, 100000}[r.Intn(5)]
+		pre = append(pre, op)
+		pre = append(pre, Op{O: "get", K: uint64(r.Intn(10))})
+	}
+	c := genPlainCase(r, pre)
+	return c
+}
+
+// genGoSliceCase: a Go []interface{} wrapper; the Go side re-slices the buffer between JS operations, JS writes past
+// the end / grows the length / reads the skipped indices
+func genGoSliceCase(r *vh.Rng) Case {
+	c := Case{Kind: 2}
+	n0 := 3 + r.Intn(8)
+	for i := 0; i < n0; i++ {
+		if r.Chance(10) {
+			c.Init = append(c.Init, nil)
+		} else {
+			c.Init = append(c.Init, u(genVal(r)+1))
+		}
+	}
+	if r.Chance(35) {
+		c.GoCut = 1 + r.Intn(n0-1)
+	}
+	for i, n := 0, 4+r.Intn(11); i < n; i++ {
+		switch r.Pick(18, 16, 10, 8, 6, 6, 8, 5, 5, 5, 4, 3, 3, 3) {
+		case 0:
+			c.Ops = append(c.Ops, Op{O: "gotrunc", K: uint64(r.Intn(n0))})
+			if r.Chance(70) { // then grow within the old capacity
+				if r.Chance(50) {
+					c.Ops = append(c.Ops, Op{O: "set", R: r.Chance(30), Rl: true, K: uint64(1 + r.Intn(3)), V: genVal(r)})
+				} else {
+					c.Ops = append(c.Ops, Op{O: "setlen", Rl: true, K: uint64(1 + r.Intn(4))})
+				}
+			}
+		case 1:
+			c.Ops = append(c.Ops, Op{O: "set", R: r.Chance(30), Rl: r.Chance(50), K: uint64(r.Intn(4)), V: genVal(r)})
+		case 2:
+			c.Ops = append(c.Ops, Op{O: "setlen", R: r.Chance(30), K: uint64(r.Intn(n0 + 3))})
+		case 3:
+			c.Ops = append(c.Ops, Op{O: "get", K: uint64(r.Intn(n0 + 2))})
+		case 4:
+			c.Ops = append(c.Ops, Op{O: "has", K: uint64(r.Intn(n0 + 2))})
+		case 5:
+			c.Ops = append(c.Ops, Op{O: "del", R: r.Chance(50), K: uint64(r.Intn(n0 + 2))})
+		case 6:
+			c.Ops = append(c.Ops, Op{O: "includes", V: []uint64{0, 998, genVal(r)}[r.Intn(3)]})
+		case 7:
+			c.Ops = append(c.Ops, Op{O: "indexOf", V: []uint64{998, genVal(r)}[r.Intn(2)]})
+		case 8:
+			c.Ops = append(c.Ops, Op{O: "push", Vs: []uint64{genVal(r)}})
+		case 9:
+			c.Ops = append(c.Ops, Op{O: "pop"})
+		case 10:
+			c.Ops = append(c.Ops, Op{O: "slice", St: 0})
+		case 11:
+			c.Ops = append(c.Ops, Op{O: "shift"})
+		case 12:
+			c.Ops = append(c.Ops, Op{O: "reverse"})
+		case 13:
+			c.Ops = append(c.Ops, Op{O: "unshift", Vs: []uint64{genVal(r)}})
+		}
+	}
+	return c
 }
 
 // genGapCase: a hole-free plain array (the fast paths apply) is shrunk by splice / pop / length=, then an element is
@@ -1178,7 +1472,7 @@ func main() {
 			c := genCase(r)
 			emit(w, c)
 			i++
-			if i < m.N && r.Chance(35) {
+			if i < m.N && c.Kind == 0 && r.Chance(35) {
 				c2 := c
 				c2.Kind = 1
 				c2.Twin = nil
